@@ -1,8 +1,8 @@
 (* C20 -- URL routing is deterministic, whole-string, and consistent with URL generation.
    Only the property theorems; the proofs are in Regex.v (language, derivative matcher), Routes.v (route family),
    Dispatch.v (dispatcher, mount points, pool scan), Sites.v (dispatcher of a site), Mapper.v (mapper of a site,
-   map_dispatch, mapper_total), Examples.v (a concrete instance satisfying every hypothesis of map_dispatch). *)
-From CppcmsV Require Import Base.Tac C20.Defs C20.Regex C20.Routes C20.Dispatch C20.Routed C20.Sites C20.Mapper C20.MapAbs C20.MapRel C20.MapAt C20.Examples.
+   map_dispatch, mapper_total), MapOut.v (stream content in both invalid_url_throws settings), Rewrite.v / RewriteSpec.v (http.rewrite rules), Examples.v (a concrete instance satisfying every hypothesis of map_dispatch). *)
+From CppcmsV Require Import Base.Tac C20.Defs C20.Regex C20.Routes C20.Dispatch C20.Routed C20.Sites C20.Mapper C20.MapAbs C20.MapRel C20.MapAt C20.Examples C20.MapOut C20.Rewrite C20.RewriteSpec C20.MapKw C20.MapBare C20.MapKwNav C20.NotFound C20.Serve C20.MapUp C20.HttpRound.
 Local Open Scope N_scope.
 
 (* 1. the matcher that models booster::regex::match accepts exactly the whole strings of the language *)
@@ -60,14 +60,32 @@ Theorem not_found_iff_none_matches : forall kd opts url c, handlers_only opts ->
   (scan kd opts url c = NotFound <-> forall o, In o opts -> try_opt kd o url c = None).
 Proof. exact not_found_iff. Qed.
 Print Assumptions not_found_iff_none_matches.
-(* what "takes the request" means for a handler: whole-string pattern match, method in the language of the filter,
-   arguments = exactly the selected groups of that match *)
+(* what "takes the request" means for a handler: whole-string pattern match, (map-style) a request context whose
+   method is in the language of the filter, and the selected groups of that match convert to the parameter types of
+   the handler (arg_conv); the arguments are exactly the converted selected groups *)
 Theorem handler_fires_exactly : forall kd k p mf hid sel url c out,
   try_opt kd (DH k p mf hid sel) url c = Some out <->
-  exists gs, pat_match p url = Some gs /\ out = Fired hid (map (grp gs) sel) /\
-             (k = KMap -> exists m, c = Some m /\ meth_lang mf m /\ forallb valid_text (map (grp gs) sel) = true).
+  exists gs args, pat_match p url = Some gs /\ arg_conv k (map (grp gs) sel) = Some args /\ out = Fired hid args /\
+             (k <> KAssign -> exists m, c = Some m /\ meth_lang mf m).
 Proof. exact handler_fires_iff. Qed.
 Print Assumptions handler_fires_exactly.
+(* the conversion: assign-style handlers receive the selected groups unchanged; map-style string handlers receive them
+   unchanged provided each is valid text; map-style int handlers (parse_url_parameter through an istream) receive the
+   values of the groups provided each is valid text and parses completely as an int *)
+Theorem handler_arguments : forall raw args,
+  (arg_conv KAssign raw = Some args <-> args = raw) /\
+  (arg_conv KMap raw = Some args <-> args = raw /\ forallb valid_text raw = true) /\
+  (arg_conv KMapInt raw = Some args <->
+     forallb valid_text raw = true /\
+     exists zs, Forall2 (fun r z => parse_int r = Some z) raw zs /\ args = map show_int zs).
+Proof.
+  intros raw args. split; [|split].
+  - rewrite arg_conv_assign. split; [intros H; injection H as <-; reflexivity | intros ->; reflexivity].
+  - apply arg_conv_map.
+  - rewrite arg_conv_int. split; intros (Hv & zs & Hz & ->); (split; [exact Hv|]); exists zs; (split; [|reflexivity]);
+      apply parse_ints_spec; exact Hz.
+Qed.
+Print Assumptions handler_arguments.
 Theorem mounted_takes_exactly : forall kids p sel k url c out,
   try_opt (kid_fns kids) (DM p sel k) url c = Some out <->
   exists gs, pat_match p url = Some gs /\
@@ -85,6 +103,20 @@ Example first_match_nonvacuous :
   scan [] [o2; o1] [47; 52; 50] (Some [80; 79; 83; 84]) = Fired 1 [[52; 50]] /\
   scan [] [o1; o2] [47; 52; 50; 10] (Some [71; 69; 84]) = NotFound.
 Proof. vm_compute. auto. Qed.
+(* int parameters: 2147483647 is delivered, 2147483648 does not fit an int, so the option declines and the next one
+   (string parameter) takes the request; a leading blank or plus sign is accepted by the istream, a trailing blank is not *)
+Example int_handler_nonvacuous :
+  let o1 := DH KMapInt (PRoute [RLit [47]; RPar cs_dot true]) MAny 1 [1%nat] in
+  let o2 := DH KMap (PRoute [RLit [47]; RPar cs_dot true]) MAny 2 [1%nat] in
+  let get := Some [71; 69; 84] in
+  scan [] [o1; o2] [47; 50; 49; 52; 55; 52; 56; 51; 54; 52; 55] get = Fired 1 [[50; 49; 52; 55; 52; 56; 51; 54; 52; 55]] /\
+  scan [] [o1; o2] [47; 50; 49; 52; 55; 52; 56; 51; 54; 52; 56] get = Fired 2 [[50; 49; 52; 55; 52; 56; 51; 54; 52; 56]] /\
+  scan [] [o1; o2] [47; 32; 43; 48; 55] get = Fired 1 [[55]] /\
+  scan [] [o1; o2] [47; 55; 32] get = Fired 2 [[55; 32]] /\
+  scan [] [o1; o2] [47; 45; 48] get = Fired 1 [[48]] /\
+  scan [] [o1] [47; 120] get = NotFound /\
+  scan [] [o1; o2] [47; 55] None = NotFound.
+Proof. vm_compute. repeat split; reflexivity. Qed.
 
 (* 4. whole_string: an option takes a request only if the ENTIRE url is in the language of its pattern; across a
       whole application tree a handler fires only through a chain of such whole-string matches, each mounted
@@ -111,6 +143,15 @@ Theorem routing_is_first_whole_match : forall a url c hid args,
   dispatch a url c = Fired hid args <-> routed a url c hid args.
 Proof. intros. split; [apply dispatch_routed | apply routed_dispatch]. Qed.
 Print Assumptions routing_is_first_whole_match.
+(* the 404 outcome, complete characterisation over trees of any depth: the request ends in not-found IFF, following at
+   every level the first option that takes it (a mount, whose pattern matches the whole string and which hands exactly
+   the selected group to its child), a level is reached at which NO option takes the request *)
+Theorem not_found_exactly : forall a url c, dispatch a url c = NotFound <-> notfound a url c.
+Proof. intros. split; [apply dispatch_notfound | apply notfound_dispatch]. Qed.
+Print Assumptions not_found_exactly.
+Theorem main_answers_404_exactly : forall a url m, app_main a url (Some m) = NotFound <-> notfound a url (Some m).
+Proof. exact main_notfound_iff. Qed.
+Print Assumptions main_answers_404_exactly.
 Example whole_string_nonvacuous :
   let kid := App [DH KAssign (PRoute [RLit [47; 112]; RPar cs_digits true]) MAny 7 [1%nat]] [] [] [] in
   let root := App [DM (PRoute [RLit [47; 97]; RPar cs_dot false]) 1 0] [] [kid] [] in
@@ -231,6 +272,167 @@ Theorem map_dispatch_relative_key : forall root a0 up0 pre0 from upf namesF node
               dispatch (build root) url c = Fired (snd pg) ps.
 Proof. exact map_dispatch_rel. Qed.
 Print Assumptions map_dispatch_relative_key.
+(* the bare path of a mounted child: a relative key whose FINAL component is the name of a mounted application
+   (dot-dots, then mount names, no trailing slash) is resolved through is_app to the child mapper with the empty key ... *)
+Theorem mapper_resolves_bare_path : forall root a0 up0 pre0 from upf namesF parent upP namesP i x,
+  site_wf root -> chain root a0 up0 pre0 ->
+  rchain a0 up0 from upf namesF -> rchain a0 up0 parent upP namesP ->
+  Forall rname_ok namesP -> rname_ok (sub_name x) -> nth_error (site_subs parent) i = Some x ->
+  mapper_for_key (build from, upf) (bare_key (length namesF) namesP (sub_name x)) =
+  Ok ((build (snd x), (build parent, sub_name x) :: upP), [], []).
+Proof. exact mapper_for_bare_path. Qed.
+Print Assumptions mapper_resolves_bare_path.
+(* ... so it generates the url of the default page (empty key) of that child, which routes back to it *)
+Theorem map_dispatch_bare_path : forall root a0 up0 pre0 from upf namesF parent upP namesP i x pg ps vals c pre,
+  site_wf root -> chain root a0 up0 pre0 ->
+  rchain a0 up0 from upf namesF -> rchain a0 up0 parent upP namesP ->
+  Forall rname_ok namesP -> rname_ok (sub_name x) -> nth_error (site_subs parent) i = Some x ->
+  chain root (snd x) ((build parent, sub_name x) :: upP) pre ->
+  In pg (site_pages (snd x)) -> page_key pg = [] ->
+  params_okb (page_route pg) ps = true ->
+  reach root (pre ++ route_fill (page_route pg) ps) (snd pg) ps ->
+  exists url, real_map (build from, upf) vals (bare_key (length namesF) namesP (sub_name x)) ps = Ok url /\
+              dispatch (build root) url c = Fired (snd pg) ps.
+Proof. exact map_dispatch_bare. Qed.
+Print Assumptions map_dispatch_bare_path.
+Example map_dispatch_bare_path_nonvacuous :
+  site_wf bx_root /\ chain bx_root bx_root [] [] /\ rchain bx_root [] bx_root [] [] /\
+  Forall rname_ok [] /\ rname_ok (sub_name bx_sub) /\ nth_error (site_subs bx_root) 0 = Some bx_sub /\
+  chain bx_root (snd bx_sub) ((build bx_root, sub_name bx_sub) :: []) ([] ++ sub_prefix bx_sub) /\
+  In bx_page (site_pages (snd bx_sub)) /\ page_key bx_page = [] /\ params_okb (page_route bx_page) [[55]] = true /\
+  reach bx_root (([] ++ sub_prefix bx_sub) ++ route_fill (page_route bx_page) [[55]]) (snd bx_page) [[55]] /\
+  bare_key 0 [] (sub_name bx_sub) = [99] /\
+  real_map (build bx_root, []) [] [99] [[55]] = Ok [47; 99; 47; 55] /\
+  dispatch (build bx_root) [47; 99; 47; 55] None = Fired 1 [[55]].
+Proof. exact bare_path_instance. Qed.
+(* a key that ENDS in a dot-dot component (.., ../.., ...) names the default page (empty key) of the ancestor that many
+   levels up, provided no application is mounted there under the empty name *)
+Theorem mapper_resolves_up_key : forall root a0 up0 pre0 from upf namesF,
+  site_wf root -> chain root a0 up0 pre0 -> rchain a0 up0 from upf namesF -> namesF <> [] ->
+  (forall x, In x (site_subs a0) -> sub_name x <> []) ->
+  mapper_for_key (build from, upf) (join47 (repeat dd (length namesF))) = Ok ((build a0, up0), [], []).
+Proof. exact mapper_for_up_key. Qed.
+Print Assumptions mapper_resolves_up_key.
+Theorem map_dispatch_up_key : forall root a0 up0 pre0 from upf namesF pg ps vals c,
+  site_wf root -> chain root a0 up0 pre0 -> rchain a0 up0 from upf namesF -> namesF <> [] ->
+  (forall x, In x (site_subs a0) -> sub_name x <> []) ->
+  In pg (site_pages a0) -> page_key pg = [] ->
+  params_okb (page_route pg) ps = true ->
+  reach root (pre0 ++ route_fill (page_route pg) ps) (snd pg) ps ->
+  exists url, real_map (build from, upf) vals (join47 (repeat dd (length namesF))) ps = Ok url /\
+              dispatch (build root) url c = Fired (snd pg) ps.
+Proof. exact map_dispatch_up. Qed.
+Print Assumptions map_dispatch_up_key.
+Example map_dispatch_up_key_nonvacuous :
+  site_wf ux_root /\ chain ux_root ux_root [] [] /\ rchain ux_root [] ux_leaf [(build ux_root, [99])] [[99]] /\
+  (forall x, In x (site_subs ux_root) -> sub_name x <> []) /\ In ux_page (site_pages ux_root) /\ page_key ux_page = [] /\
+  params_okb (page_route ux_page) [[55]] = true /\
+  reach ux_root ([] ++ route_fill (page_route ux_page) [[55]]) (snd ux_page) [[55]] /\
+  join47 (repeat dd (length [[99]])) = [46; 46] /\
+  real_map (build ux_leaf, [(build ux_root, [99])]) [] [46; 46] [[55]] = Ok [47; 104; 47; 55] /\
+  dispatch (build ux_root) [47; 104; 47; 55] None = Fired 9 [[55]].
+Proof. exact up_key_instance. Qed.
+(* keyword parameters: key;kw1,...,kwn binds the first n parameters to the keywords (a site template has no named
+   placeholder, so they do not show in the url) and uses the remaining ones as the page parameters *)
+Theorem map_dispatch_keyword_parameters : forall root node up pre pg ps kws kvs vals c,
+  site_wf root -> chain root node up pre -> In pg (site_pages node) -> page_key pg <> [] ->
+  kws <> [] -> (forall x, In x kws -> noc 44 x = true) -> (forall x, In x kws -> noc 47 x = true) ->
+  length kvs = length kws ->
+  params_okb (page_route pg) ps = true ->
+  reach root (pre ++ route_fill (page_route pg) ps) (snd pg) ps ->
+  exists url, real_map (build node, up) vals (page_key pg ++ 59 :: joinc 44 kws) (kvs ++ ps) = Ok url /\
+              dispatch (build root) url c = Fired (snd pg) ps.
+Proof. exact map_dispatch_kw. Qed.
+Print Assumptions map_dispatch_keyword_parameters.
+(* keywords combined with navigation: appending ;kw1,...,kwn to ANY key that get_mapper_for_key resolves keeps the
+   mapper and the real key and adds the keywords ... *)
+Theorem mapper_keywords_after_any_key : forall l key kws l' rk,
+  key <> [] -> noc 59 key = true ->
+  kws <> [] -> (forall x, In x kws -> noc 44 x = true) -> (forall x, In x kws -> noc 47 x = true) ->
+  mapper_for_key l key = Ok (l', rk, []) ->
+  mapper_for_key l (key ++ 59 :: joinc 44 kws) = Ok (l', rk, kws).
+Proof. exact mapper_for_key_kw. Qed.
+Print Assumptions mapper_keywords_after_any_key.
+(* ... so the keyword form of every key proved above (absolute, relative, bare path: whatever resolves to the page's
+   mapper and key) generates the page's url for the positional parameters, and it routes back *)
+Theorem map_dispatch_keywords_any_key : forall root node up pre pg ps kws kvs vals c l key,
+  site_wf root -> chain root node up pre -> In pg (site_pages node) ->
+  key <> [] -> noc 59 key = true ->
+  mapper_for_key l key = Ok ((build node, up), page_key pg, []) ->
+  kws <> [] -> (forall x, In x kws -> noc 44 x = true) -> (forall x, In x kws -> noc 47 x = true) ->
+  length kvs = length kws ->
+  params_okb (page_route pg) ps = true ->
+  reach root (pre ++ route_fill (page_route pg) ps) (snd pg) ps ->
+  exists url, real_map l vals (key ++ 59 :: joinc 44 kws) (kvs ++ ps) = Ok url /\
+              dispatch (build root) url c = Fired (snd pg) ps.
+Proof. exact map_dispatch_kw_any. Qed.
+Print Assumptions map_dispatch_keywords_any_key.
+Example map_dispatch_keywords_any_key_nonvacuous :
+  (* /c/d/q;lang used on the middle node of the example site, parameters en, ab, 42 *)
+  let key := abs_key ex_up (page_key ex_page) in
+  key = [47; 99; 47; 100; 47; 113] /\ noc 59 key = true /\
+  mapper_for_key (build ex_mid, [(build ex_root, [99])]) key = Ok ((build ex_leaf, ex_up), page_key ex_page, []) /\
+  real_map (build ex_mid, [(build ex_root, [99])]) [] (key ++ 59 :: joinc 44 [[108; 97; 110; 103]]) ([[101; 110]] ++ ex_ps) = Ok ex_url /\
+  map_at (build ex_root) [] [0%nat; 0%nat] [46; 46; 47; 46; 46; 47; 99; 47; 112; 59; 120] [[49]; [55]] = Ok [47; 99; 47; 112; 47; 55].
+Proof. vm_compute. repeat split; reflexivity. Qed.
+(* the single-dot component: ./key names what key names (any mapper, any relative key), so every relative form above
+   may be prefixed with ./ *)
+Theorem mapper_single_dot_component : forall l vals key ps, key <> [] -> hd 0 key <> 47 ->
+  mapper_for_key l (46 :: 47 :: key) = mapper_for_key l key /\
+  real_map l vals (46 :: 47 :: key) ps = real_map l vals key ps.
+Proof. intros. split; [apply mapper_for_dot_key | apply real_map_dot_key]; assumption. Qed.
+Print Assumptions mapper_single_dot_component.
+Example map_dispatch_keyword_nonvacuous :
+  (* q;lang,x with parameters en, 1, ab, 42 on the leaf of the example site; ./q ; too few parameters for the keywords *)
+  map_at (build ex_root) [] [0%nat; 0%nat] [113; 59; 108; 97; 110; 103; 44; 120] ([[101; 110]; [49]] ++ ex_ps) = Ok ex_url /\
+  joinc 44 [[108; 97; 110; 103]; [120]] = [108; 97; 110; 103; 44; 120] /\
+  map_at (build ex_root) [] [0%nat; 0%nat] [46; 47; 113] ex_ps = Ok ex_url /\
+  map_at (build ex_root) [] [0%nat; 0%nat] [113; 59; 108; 97; 110; 103; 44; 120] [[101; 110]] = Err EKeywords.
+Proof. vm_compute. repeat split; reflexivity. Qed.
+(* map_dispatch for what url_mapper::map actually writes to the stream (map_output), in BOTH settings of
+   misc.invalid_url_throws and for arbitrary parameter bytes - embedded NUL included (the parameter classes decide,
+   not the configuration): the stream receives a url that routes from the root to the page with exactly ps.  For the
+   plain key, absolute keys and relative keys. *)
+Theorem map_dispatch_stream : forall root node up pre pg ps vals c throws,
+  site_wf root -> chain root node up pre -> In pg (site_pages node) ->
+  params_okb (page_route pg) ps = true ->
+  reach root (pre ++ route_fill (page_route pg) ps) (snd pg) ps ->
+  exists url, map_output throws (real_map (build node, up) vals (page_key pg) ps) = Some url /\
+              dispatch (build root) url c = Fired (snd pg) ps.
+Proof. exact map_dispatch_stream_local. Qed.
+Print Assumptions map_dispatch_stream.
+Theorem map_dispatch_stream_absolute_key : forall root from upf pref node up pre pg ps vals c throws,
+  site_wf root -> chain root from upf pref -> chain root node up pre -> Forall name_ok (map snd up) ->
+  In pg (site_pages node) -> params_okb (page_route pg) ps = true ->
+  reach root (pre ++ route_fill (page_route pg) ps) (snd pg) ps ->
+  exists url, map_output throws (real_map (build from, upf) vals (abs_key up (page_key pg)) ps) = Some url /\
+              dispatch (build root) url c = Fired (snd pg) ps.
+Proof. exact map_dispatch_stream_abs. Qed.
+Print Assumptions map_dispatch_stream_absolute_key.
+Theorem map_dispatch_stream_relative_key : forall root a0 up0 pre0 from upf namesF node up names pg ps vals c pre throws,
+  site_wf root -> chain root a0 up0 pre0 ->
+  rchain a0 up0 from upf namesF -> rchain a0 up0 node up names -> Forall rname_ok names ->
+  chain root node up pre ->
+  In pg (site_pages node) -> (length namesF + length names > 0)%nat ->
+  params_okb (page_route pg) ps = true ->
+  reach root (pre ++ route_fill (page_route pg) ps) (snd pg) ps ->
+  exists url, map_output throws (real_map (build from, upf) vals (rel_key (length namesF) names (page_key pg)) ps) = Some url /\
+              dispatch (build root) url c = Fired (snd pg) ps.
+Proof. exact map_dispatch_stream_rel. Qed.
+Print Assumptions map_dispatch_stream_relative_key.
+(* regression instance (the replay of the former finding mapper-nothrow-truncates-url-at-nul, corpus/C20/regress.case):
+   parameter a NUL b, invalid_url_throws=false; every hypothesis of map_dispatch_stream holds, the stream receives
+   /c/p/a NUL b in both configurations and the page gets a NUL b; the url cut at the NUL would have delivered a *)
+Example map_dispatch_stream_nul_nonvacuous :
+  site_wf nx_root /\ chain nx_root nx_leaf nx_up ([] ++ [47; 99]) /\ In nx_page (site_pages nx_leaf) /\
+  params_okb (page_route nx_page) nx_ps = true /\
+  reach nx_root (([] ++ [47; 99]) ++ route_fill (page_route nx_page) nx_ps) (snd nx_page) nx_ps /\
+  map_output false (real_map (build nx_leaf, nx_up) [] (page_key nx_page) nx_ps) = Some nx_url /\
+  map_output true (real_map (build nx_leaf, nx_up) [] (page_key nx_page) nx_ps) = Some nx_url /\
+  map_output false (map_at (build nx_root) [] [0%nat] [112] nx_ps) = Some nx_url /\
+  dispatch (build nx_root) nx_url None = Fired 1 nx_ps /\
+  dispatch (build nx_root) (cstr nx_url) None = Fired 1 [[97]].
+Proof. exact nul_parameter_instance. Qed.
 (* the tree-position form used by the correspondence harness: registering a well-formed site never throws, every node
    of the site sits at a tree position, and map_at at that position is real_map at the location used above *)
 Theorem site_registration_never_throws : forall s, site_wf s -> build_ok (build s) = true.
@@ -241,9 +443,8 @@ Theorem map_at_agrees_with_real_map : forall root node up pre, site_wf root -> c
     map_at (build root) vals pos key ps = real_map (build node, up) vals key ps.
 Proof. exact map_at_is_real_map. Qed.
 Print Assumptions map_at_agrees_with_real_map.
-(* not proved (modelled, run against the implementation by the correspondence harness, checked by the oracle): single-dot
-   components, keyword parameters, the bare path of a mounted child (empty key via is_app), helper values in
-   templates, keys with an embedded NUL (c_str truncation). *)
+(* not proved (modelled, run against the implementation by the correspondence harness, checked by the oracle): helper
+   values in templates (sites have none), keys with an embedded NUL (c_str truncation). *)
 Example map_dispatch_nonvacuous :
   site_wf ex_root /\ chain ex_root ex_leaf ex_up ([47; 99] ++ [47; 100]) /\ In ex_page (site_pages ex_leaf) /\
   page_key ex_page <> [] /\ params_okb (page_route ex_page) ex_ps = true /\
@@ -284,16 +485,154 @@ Proof. exact real_map_unknown_key. Qed.
 Print Assumptions mapper_unknown_key_after_navigation.
 Theorem mapper_total : forall throws r,
   match r with
-  | Ok u => map_output throws r = Some (if throws then u else cstr u)
+  | Ok u => map_output throws r = Some u
   | Err _ => map_output throws r = if throws then None else Some invalid_url
   end.
 Proof. exact map_output_total. Qed.
 Print Assumptions mapper_total.
+(* conversely, whatever reaches the stream is the url computed by real_map, or (no-throw only) the marker of an error *)
+Theorem mapper_stream_is_url_or_marker : forall throws r u, map_output throws r = Some u ->
+  r = Ok u \/ (throws = false /\ u = invalid_url /\ exists e, r = Err e).
+Proof. exact map_output_inv. Qed.
+Print Assumptions mapper_stream_is_url_or_marker.
+(* misc.invalid_url_throws changes only what happens on an error: a successful map writes the same, complete url in
+   both configurations (since /repo eebbee5; before, the no-throw path stopped at the first NUL byte) *)
+Theorem mapper_throws_switch_irrelevant_on_success : forall r,
+  (exists u, r = Ok u) -> map_output false r = map_output true r.
+Proof. exact map_output_switch_irrelevant_on_success. Qed.
+Print Assumptions mapper_throws_switch_irrelevant_on_success.
 Example mapper_total_nonvacuous :
   map_at (build ex_root) [] [0%nat; 0%nat] [113] [[97]; [49]] = Ok [47; 99; 47; 100; 47; 113; 47; 97; 45; 49] /\
   map_at (build ex_root) [] [0%nat; 0%nat] [113] [[97]] = Err EKey /\
   map_at (build ex_root) [] [0%nat; 0%nat] [122] [] = Err EKey /\
   map_at (build ex_root) [] [0%nat; 0%nat] [46; 46; 47; 112] [[55]] = Ok [47; 99; 47; 112; 47; 55] /\
   map_at (build ex_root) [] [0%nat; 0%nat] [47; 104] [] = Ok [47] /\
-  map_output false (Ok [47; 97; 0; 98]) = Some [47; 97].
+  map_output false (Ok [47; 97; 0; 98]) = Some [47; 97; 0; 98] /\
+  map_output false (map_at (build ex_root) [] [0%nat; 0%nat] [122] []) = Some invalid_url /\
+  map_output true (map_at (build ex_root) [] [0%nat; 0%nat] [122] []) = None.
+Proof. vm_compute. repeat split; reflexivity. Qed.
+
+(* 9. url rewriting (private/rewrite.h, the http.rewrite rules applied to the request uri before routing): the rules are
+      tried in configuration order; a rule is applied only when its regex matches the ENTIRE current url; a final rule
+      ends the rewriting, a non-final one hands its result to the rules after it.  Complete characterisation. *)
+Theorem rewrite_is_ordered_whole_string : forall rules url out,
+  rw_apply rules url = out <-> rw_steps rules url out.
+Proof. intros. split; [intros <-; apply rw_apply_steps | apply rw_steps_apply]. Qed.
+Print Assumptions rewrite_is_ordered_whole_string.
+Theorem rewrite_first_matching_rule : forall pre r post url gs,
+  (forall r', In r' pre -> pat_match (rr_pat r') url = None) -> pat_match (rr_pat r) url = Some gs ->
+  lang (pat_re (rr_pat r)) url /\
+  rw_apply (pre ++ r :: post) url = if rr_final r then rw_once r gs else rw_apply post (rw_once r gs).
+Proof. exact rw_first_match. Qed.
+Print Assumptions rewrite_first_matching_rule.
+Theorem rewrite_leaves_other_urls_alone : forall rules url,
+  (forall r, In r rules -> ~ lang (pat_re (rr_pat r)) url) -> rw_apply rules url = url.
+Proof. exact rw_outside_languages_unchanged. Qed.
+Print Assumptions rewrite_leaves_other_urls_alone.
+(* the rewrite pattern: literal text, $0..$9, $$ - scanned by rule::rule, instantiated by rule::rewrite_once *)
+Theorem rewrite_pattern_correct : forall ps, Forall piece_ok ps ->
+  exists parts idx, rw_parse (rw_print ps) = Some (parts, idx) /\
+                    forall gs, rw_fill parts idx gs = rw_eval ps gs.
+Proof. exact rw_pattern_correct. Qed.
+Print Assumptions rewrite_pattern_correct.
+Theorem rewrite_pattern_trailing_dollar_rejected : forall ps, Forall piece_ok ps -> rw_parse (rw_print ps ++ [36]) = None.
+Proof. exact rw_parse_trailing_dollar. Qed.
+Print Assumptions rewrite_pattern_trailing_dollar_rejected.
+Example rewrite_nonvacuous :
+  let p1 := PRoute [RLit [47]; RPar cs_digits true; RLit [47]; RPar cs_dot false] in
+  let p2 := PRoute [RLit [47; 97]; RPar cs_dot false] in
+  let p3 := PRoute [RLit [47; 98]; RPar cs_dot false] in
+  rw_parse [47; 112; 47; 36; 50; 45; 36; 49; 63; 36; 36] = Some ([[47; 112; 47]; [45]; [63; 36]], [2%Z; 1%Z]) /\
+  rw_parse [47; 36] = None /\
+  (exists r1, mk_rule p1 [47; 112; 47; 36; 50; 45; 36; 49] true = Some r1 /\
+     rw_apply [r1] [47; 52; 50; 47; 120] = [47; 112; 47; 120; 45; 52; 50] /\
+     rw_apply [r1] [47; 52; 50; 47; 120; 10] = [47; 52; 50; 47; 120; 10]) /\
+  (exists r2 r3, mk_rule p2 [47; 98; 36; 49] false = Some r2 /\ mk_rule p3 [47; 99; 36; 49] true = Some r3 /\
+     rw_apply [r2; r3] [47; 97; 55] = [47; 99; 55] /\ rw_apply [r3; r2] [47; 97; 55] = [47; 98; 55]).
+Proof. exact C20.Rewrite.rewrite_nonvacuous. Qed.
+Example rewrite_pattern_nonvacuous :
+  let ps := [RwLit [47; 112; 47]; RwGrp 2; RwLit [45]; RwGrp 1; RwLit [63]; RwDollar] in
+  Forall piece_ok ps /\ rw_print ps = [47; 112; 47; 36; 50; 45; 36; 49; 63; 36; 36] /\
+  rw_eval ps [[47; 52; 47; 120]; [52]; [120]] = [47; 112; 47; 120; 45; 52; 63; 36].
+Proof. split; [repeat constructor; cbn; lia|]. split; vm_compute; reflexivity. Qed.
+
+(* 10. the embedded HTTP front end, end to end (src/http_api.cpp process_request + src/http_context.cpp
+       on_headers_ready): a handler runs for a request only through the chain  uri -> rewrite rules (ordered, whole-string)
+       -> path before the question mark -> first configured script name that is a component prefix -> url-decoded rest as
+       PATH_INFO -> first mount point whose patterns match the whole strings -> first whole-string handler match *)
+Theorem http_request_routing_end_to_end : forall rules names pools host uri m i sub hid args,
+  serve rules names pools host uri m = Served (RApp i sub (Fired hid args)) ->
+  exists u q sn rest mp a,
+    rw_steps rules uri u /\ cut_at 63 u = (sn ++ rest, q) /\ hd 0 u = 47 /\
+    pick_script names (sn ++ rest) = (sn, rest) /\
+    nth_error pools i = Some (mp, a) /\
+    mp_match mp host sn (urldecode rest) = Some sub /\
+    (forall j mp', (j < i)%nat -> nth_error (map fst pools) j = Some mp' -> mp_match mp' host sn (urldecode rest) = None) /\
+    routed a sub (Some m) hid args.
+Proof. exact serve_end_to_end. Qed.
+Print Assumptions http_request_routing_end_to_end.
+Theorem script_name_is_first_component_prefix : forall names path sn rest, pick_script names path = (sn, rest) ->
+  path = sn ++ rest /\
+  ((exists pre post, names = pre ++ sn :: post /\ comp_prefix sn path /\ forall n, In n pre -> ~ comp_prefix n path)
+   \/ (sn = [] /\ forall n, In n names -> ~ comp_prefix n path)).
+Proof. exact pick_script_spec. Qed.
+Print Assumptions script_name_is_first_component_prefix.
+Theorem http_bad_request_iff : forall rules names pools host uri m,
+  serve rules names pools host uri m = Bad400 <-> hd 0 (rw_apply rules uri) <> 47.
+Proof. exact serve_bad_request. Qed.
+Print Assumptions http_bad_request_iff.
+Example http_nonvacuous :
+  (* rule /a(.* ) -> /b$1 (not final); mount point: path /b(.* ), group 1; application: /(\d+) -> handler 1 *)
+  let p1 := PRoute [RLit [47; 97]; RPar cs_dot false] in
+  let mp := MP None None (Some (PRoute [RLit [47; 98]; RPar cs_dot false])) 1 true in
+  let a := App [DH KAssign (PRoute [RLit [47]; RPar cs_digits true]) MAny 1 [1%nat]] [] [] [] in
+  exists r1, mk_rule p1 [47; 98; 36; 49] false = Some r1 /\
+    (* GET /a/42?x=1 *)
+    serve [r1] [[47; 115]] [(mp, a)] [104] [47; 97; 47; 52; 50; 63; 120; 61; 49] [71; 69; 84]
+      = Served (RApp 0 [47; 52; 50] (Fired 1 [[52; 50]])) /\
+    (* /a/4%32 : the rule sees the raw text, PATH_INFO is decoded *)
+    serve [r1] [[47; 115]] [(mp, a)] [104] [47; 97; 47; 52; 37; 51; 50] [71; 69; 84]
+      = Served (RApp 0 [47; 52; 50] (Fired 1 [[52; 50]])) /\
+    (* with /b configured as a script name the same request has SCRIPT_NAME /b, PATH_INFO /42: no mount point *)
+    serve [r1] [[47; 98]] [(mp, a)] [104] [47; 97; 47; 52; 50] [71; 69; 84] = Served RNoPool /\
+    serve [r1] [] [(mp, a)] [104] [120] [71; 69; 84] = Bad400 /\
+    serve [r1] [] [(mp, a)] [104] [47; 98; 47; 52; 50; 10] [71; 69; 84] = Served RNoPool.
+Proof. eexists. split; [vm_compute; reflexivity|]. vm_compute. repeat split; reflexivity. Qed.
+
+(* 11. full circle.  util::urldecode inverts percent-encoding whatever bytes are left verbatim (percent and plus excluded) ... *)
+Theorem urldecode_inverts_percent_encoding : forall keep, (forall c, keep c = true -> c <> 37 /\ c <> 43) ->
+  forall s, byte_list s -> urldecode (pct_enc keep s) = s.
+Proof. exact urldecode_pct_enc. Qed.
+Print Assumptions urldecode_inverts_percent_encoding.
+(* ... so a url that the dispatcher routes to a handler, sent percent-encoded as an HTTP request to a server whose only
+   pool is the root application mounted everywhere (no rewrite rules, no script names), runs that handler with the same
+   arguments ... *)
+Theorem http_request_reaches_the_routed_handler : forall keep a url m host hid args,
+  (forall c, keep c = true -> c <> 37 /\ c <> 43) -> keep 63 = false ->
+  byte_list url -> forallb (fun c => negb (c =? 0)) url = true ->
+  (exists t, url = 47 :: t) -> keep 47 = true ->
+  dispatch a url (Some m) = Fired hid args ->
+  serve [] [] [(mp_all, a)] host (pct_enc keep url) m = Served (RApp 0 url (Fired hid args)).
+Proof. exact http_round_trip. Qed.
+Print Assumptions http_request_reaches_the_routed_handler.
+(* ... in particular the url that url_mapper::map writes for a page of a site (either invalid_url_throws setting):
+   requested over HTTP it reaches the handler registered for that key with those same parameters *)
+Theorem mapper_url_requested_over_http_reaches_its_page : forall keep root node up pre pg ps vals m host throws,
+  (forall c, keep c = true -> c <> 37 /\ c <> 43) -> keep 63 = false -> keep 47 = true ->
+  site_wf root -> chain root node up pre -> In pg (site_pages node) ->
+  params_okb (page_route pg) ps = true ->
+  reach root (pre ++ route_fill (page_route pg) ps) (snd pg) ps ->
+  let url := pre ++ route_fill (page_route pg) ps in
+  byte_list url -> forallb (fun c => negb (c =? 0)) url = true -> (exists t, url = 47 :: t) ->
+  map_output throws (real_map (build node, up) vals (page_key pg) ps) = Some url /\
+  serve [] [] [(mp_all, build root)] host (pct_enc keep url) m = Served (RApp 0 url (Fired (snd pg) ps)).
+Proof. exact http_map_dispatch. Qed.
+Print Assumptions mapper_url_requested_over_http_reaches_its_page.
+Example http_round_trip_nonvacuous :
+  (* the url /c/d/q/ab-42 of the example site, every byte but the slash percent-encoded *)
+  let keep := fun c => c =? 47 in
+  pct_enc keep [47; 99; 47; 100] = [47; 37; 54; 51; 47; 37; 54; 52] /\
+  urldecode (pct_enc keep ex_url) = ex_url /\
+  serve [] [] [(mp_all, build ex_root)] [104] (pct_enc keep ex_url) [71; 69; 84] = Served (RApp 0 ex_url (Fired 3 ex_ps)) /\
+  urldecode [37; 52; 49; 43; 37; 122; 122; 37] = [65; 32; 122; 122].
 Proof. vm_compute. repeat split; reflexivity. Qed.
